@@ -12,11 +12,23 @@ use std::collections::HashMap;
 fn inputs(rng: &mut impl Rng, n: usize) -> Vec<Vec<u8>> {
   let mut v: Vec<Vec<u8>> = vec![vec![], b"a".to_vec(), b"b".to_vec(), vec![0u8; 32], vec![0xff; 166], vec![0x41; 167]];
   v.push((0..5000).map(|i| (i % 251) as u8).collect());
+  // lengths around hash-block and digest sizes, all sharing one long prefix and differing only
+  // in their tail (an input hash that ignores trailing bytes makes them collide)
+  for l in [31usize, 32, 33, 62, 63, 64, 65, 66, 94, 95, 96, 127, 128, 129, 165, 168, 200] {
+    let mut x: Vec<u8> = (0..l).map(|i| (i * 7 % 256) as u8).collect();
+    let last = x.len() - 1;
+    x[last] = x[last].wrapping_add(1);
+    v.push(x);
+    v.push((0..l).map(|i| (i * 7 % 256) as u8).collect());
+  }
   while v.len() < n {
     let l = rng.gen_range(1..200);
     v.push((0..l).map(|_| rng.gen()).collect());
   }
-  v.truncate(n.max(3));
+  if n < v.len() && n <= 12 {
+    // small requests (C13/C15 base requests) keep the head of the list
+    v.truncate(n.max(3));
+  }
   v
 }
 
